@@ -277,4 +277,95 @@ theorem hkeyElements_BorrowFromRight_full_eq_model (hE : EnvH o T env) (l r : Hk
 
 end hkey
 
+/-! ## non-vacuity: a concrete environment and concrete groups -/
+
+/-- the parameters of the generated code instantiated with the model: element sizes by `o`, thresholds of `T`, the
+    model's error classes, the model's `Ctx` as slab storage (an empty heap: `Retrieve` finds nothing) -/
+def envM {α : Type} (o : ElemsOps α) (T L : Nat) : Env (MElemF α) Unit Unit Unit Ctx GE where
+  Digester_Levels := u64 L
+  MapSlab_CanLendToLeft := fun _ _ => false
+  MapSlab_CanLendToRight := fun _ _ => false
+  NewHashLevelErrorf := some .hashLevel
+  NewKeyNotFoundError := some .keyNotFound
+  NewNotApplicableError := some .notApplicable
+  NewSlabDataErrorf := some .modelMismatch
+  NewSlabMergeError := some .slabMerge
+  NewSlabNotFoundErrorf := some .slabNotFound
+  NewSlabRebalanceError := some .slabRebalance
+  NewSlabRebalanceErrorf := some .slabRebalance
+  NewSlabSplitErrorf := some .slabSplit
+  SlabStorage_GenerateSlabID := fun c a => ((c.alloc a).1, none, (c.alloc a).2)
+  SlabStorage_Remove := fun c id => (none, c.emit (.remove id))
+  SlabStorage_Retrieve := fun c _ => (.nil, false, none, c)
+  SlabStorage_Store := fun c id _ => (none, c.emit (.store id))
+  Storable_ByteSize := fun _ => 0
+  ValueComparator := fun c _ _ => (false, none, c)
+  Value_Storable := fun _ c _ _ => (none, none, c)
+  element_Size := fun el => u32 (el.size o)
+  maxInlineMapValueSize := fun x => x
+  minThreshold := u32 (minThr T)
+  newSingleElement := fun c _ _ _ => ({ key := none, value := none }, none, c)
+  wrapErrorfAsExternalErrorIfNeeded := id
+
+theorem envM_EnvH {α : Type} (o : ElemsOps α) (T L : Nat) : EnvH o T (envM o T L) where
+  size := fun _ => rfl
+  minThr := rfl
+  eMerge := rfl
+  eRebalance := rfl
+  eRebalancef := rfl
+  eSplit := rfl
+  eNotApplicable := rfl
+
+theorem envM_EnvS {α : Type} (o : ElemsOps α) (T L : Nat) : EnvS (envM o T L) where
+  gen := fun _ _ => rfl
+  store := fun _ _ _ => rfl
+  remove := fun _ _ => rfl
+  wrapNone := rfl
+
+section examples
+
+private def o0 : ElemsOps SingleElems := SingleElems.ops
+private def el (n pay : Nat) : MElemF SingleElems :=
+  .single { key := { size := 1, pay := pay, digs := [pay] }, val := { size := n - 2, pay := .val pay }, size := n }
+/-- three elements of 20, 30, 40 bytes (+ 8 per digest): 8 + 28 + 38 + 48 = 122 -/
+private def gEx : HkeyElems SingleElems :=
+  { hkeys := [5, 9, 12], elems := [el 20 1, el 30 2, el 40 3], size := 122, level := 0 }
+private def gR : HkeyElems SingleElems :=
+  { hkeys := [20], elems := [el 20 4], size := 36, level := 0 }
+
+/-- Split of the three-element group: digests and elements `[5, 9] | [12]`, sizes 74 and 56 -/
+example : hkeyElements_Split (envM o0 256 4) (cH gEx) =
+    some (.hkey (cH { hkeys := [5, 9], elems := [el 20 1, el 30 2], size := 74, level := 0 }),
+          .hkey (cH { hkeys := [12], elems := [el 40 3], size := 56, level := 0 }), none,
+          cH { hkeys := [5, 9], elems := [el 20 1, el 30 2], size := 74, level := 0 }) := by
+  rw [hkeyElements_Split_full_eq_model o0 256 _ (envM_EnvH o0 256 4) gEx (by decide) (by decide) (by decide)]; rfl
+
+/-- Merge with the one-element group: four digests, size 122 + 36 - 8 -/
+example : hkeyElements_Merge (envM o0 256 4) (cH gEx) (.hkey (cH gR)) =
+    some (none, cH { hkeys := [5, 9, 12, 20], elems := [el 20 1, el 30 2, el 40 3, el 20 4], size := 150, level := 0 }) := by
+  rw [hkeyElements_Merge_full_eq_model _ gEx gR (by decide) (by decide)]; rfl
+
+/-- LendToRight to the one-element group (T = 256: the right group must reach minThreshold - 18 - 8 = 102 bytes): the
+    last TWO elements and their digests move -/
+example : hkeyElements_LendToRight (envM o0 256 4) (cH gEx) (.hkey (cH gR)) =
+    some (none, cH { hkeys := [5], elems := [el 20 1], size := 36, level := 0 },
+          .hkey (cH { hkeys := [9, 12, 20], elems := [el 30 2, el 40 3, el 20 4], size := 122, level := 0 })) := by
+  rw [hkeyElements_LendToRight_full_eq_model o0 256 _ (envM_EnvH o0 256 4) gEx gR (by decide) (by decide) (by decide)
+    (by decide) (by decide) (by decide) (by decide) (by decide)]; rfl
+
+/-- BorrowFromRight in the other direction -/
+example : hkeyElements_BorrowFromRight (envM o0 256 4) (cH gR) (.hkey (cH gEx)) =
+    some (none, cH { hkeys := [20, 5], elems := [el 20 4, el 20 1], size := 64, level := 0 },
+          .hkey (cH { hkeys := [9, 12], elems := [el 30 2, el 40 3], size := 94, level := 0 })) := by
+  rw [hkeyElements_BorrowFromRight_full_eq_model o0 256 _ (envM_EnvH o0 256 4) gR gEx (by decide) (by decide) (by decide)
+    (by decide) (by decide) (by decide) (by decide) (by decide)]; rfl
+
+/-- different levels: the rebalance error, both groups untouched -/
+example : hkeyElements_LendToRight (envM o0 256 4) (cH gEx) (.hkey (cH { gR with level := 1 })) =
+    some (some .slabRebalance, cH gEx, .hkey (cH { gR with level := 1 })) := by
+  rw [hkeyElements_LendToRight_full_eq_model o0 256 _ (envM_EnvH o0 256 4) gEx { gR with level := 1 } (by decide) (by decide)
+    (by decide) (by decide) (by decide) (by decide) (by decide) (by decide)]; rfl
+
+end examples
+
 end Atree.TransEq
